@@ -54,15 +54,29 @@ def rust_str_lit(lit):
     return "".join(out)
 
 
-def id_info(src, ty, rel):
+def id_info(src, ty, rel, macro_src=None):
     m = re.search(r"pub struct %s\((?:pub\(crate\) )?u(\d+)\)" % ty, src)
     if not m:
         raise TieBroken(f"{rel}: cannot find `pub struct {ty}(uN)`")
     width = int(m.group(1))
     body = re.search(r"fn to_id\(index: usize\) -> %s \{(.*?)\n    \}" % ty, src, re.S)
-    if not body:
-        raise TieBroken(f"{rel}: cannot find to_id")
-    b = body.group(1)
+    if body:
+        b = body.group(1)
+    else:
+        # the impl may come from a macro invoked with the type (`impl_xxx!(NameId);`): read to_id from the macro's body,
+        # wherever under src/id/ the macro is defined
+        inv = re.search(r"^\s*(\w+)!\(\s*%s\s*\);" % ty, src, re.M)
+        mbody = None
+        if inv:
+            for other in (src, macro_src or ""):
+                mm = re.search(r"macro_rules!\s+%s\s*\{(.*?)\n\}" % re.escape(inv.group(1)), other, re.S)
+                if mm:
+                    mbody = mm.group(1)
+                    break
+        tb = mbody and re.search(r"fn to_id\(index: usize\) -> \$(\w+) \{(.*?)\}", mbody, re.S)
+        if not tb:
+            raise TieBroken(f"{rel}: cannot find to_id")
+        b = tb.group(2)
     m2 = re.search(r"index as u(\d+)", b)
     m3 = re.search(r"u(\d+)::try_from\(index\)\s*\.(?:expect|unwrap)", b)
     if m3:
@@ -216,6 +230,60 @@ def unpretty_tables(src, rel, emit):
     emit("")
 
 
+
+VARIANTS = ["Document", "Element", "Text", "ProcessingInstruction", "Comment", "Attribute", "Namespace"]
+
+
+def value_tables(src, rel, emit):
+    """src/xmlvalue.rs: value_type, value_category, is_normal as tables over the constructors of Value (numbered in the order
+    Document, Element, Text, ProcessingInstruction, Comment, Attribute, Namespace), and the text Comment::set refuses"""
+    def arms_of(fn, target_enum):
+        body = fn_body(src, fn, rel)
+        m = re.search(r"match\s+self\s*\{(.*)\}\s*\}\s*$", body, re.S)
+        if not m:
+            raise TieBroken(f"{rel}: {fn} is no longer one `match self`")
+        table = {}
+        for arm in re.split(r",\s*(?=Value::)", m.group(1).strip().rstrip(",")):
+            mm = re.fullmatch(r"((?:Value::\w+(?:\(_\))?\s*\|?\s*)+)=>\s*%s::(\w+)" % target_enum, arm.strip(), re.S)
+            if not mm:
+                raise TieBroken(f"{rel}: arm of {fn} not understood: {arm.strip()[:60]!r}")
+            for v in re.findall(r"Value::(\w+)", mm.group(1)):
+                if v not in VARIANTS or v in table:
+                    raise TieBroken(f"{rel}: {fn} names an unknown or repeated variant {v}")
+                table[v] = mm.group(2)
+        if sorted(table) != sorted(VARIANTS):
+            raise TieBroken(f"{rel}: {fn} does not cover the seven variants of Value")
+        return table
+    types = arms_of("value_type", "ValueType")
+    cats = arms_of("value_category", "ValueCategory")
+    if any(types[v] != v for v in VARIANTS):
+        raise TieBroken(f"{rel}: value_type does not map every variant to the ValueType of the same name")
+    cat_no = {"Normal": 0, "Attribute": 1, "Namespace": 2}
+    if any(c not in cat_no for c in cats.values()):
+        raise TieBroken(f"{rel}: value_category names an unknown category")
+    body = fn_body(src, "is_normal", rel)
+    m = re.search(r"matches!\(\s*self\s*,(.*)\)\s*\}\s*$", body, re.S)
+    if not m:
+        raise TieBroken(f"{rel}: is_normal is no longer `matches!(self, ...)`")
+    normal = re.findall(r"Value::(\w+)", m.group(1))
+    if any(v not in VARIANTS for v in normal) or re.sub(r"Value::\w+(\(_\))?|[\s|]", "", m.group(1)) != "":
+        raise TieBroken(f"{rel}: is_normal alternatives not understood")
+    # Comment::set
+    i = src.find("impl Comment")
+    if i < 0:
+        raise TieBroken(f"{rel}: cannot find impl Comment")
+    cbody = fn_body(src[i:], "set", rel)
+    m = re.search(r'if\s+text\.contains\((".*?")\)\s*\{\s*return\s+Err\(Error::InvalidComment\(text\)\);\s*\}\s*self\.text\s*=\s*text;\s*Ok\(\(\)\)', cbody, re.S)
+    if not m:
+        raise TieBroken(f"{rel}: Comment::set is no longer `if text.contains(LIT) {{ return Err(InvalidComment) }} self.text = text; Ok(())`")
+    lit = rust_str_lit(m.group(1))
+    emit("(* src/xmlvalue.rs: constructors of Value numbered Document 0, Element 1, Text 2, ProcessingInstruction 3, Comment 4, Attribute 5, Namespace 6;")
+    emit("   categories numbered Normal 0, Attribute 1, Namespace 2 *)")
+    emit("Definition src_value_category : list (N * N) := [%s]." % "; ".join("(%d, %d)" % (k, cat_no[cats[v]]) for k, v in enumerate(VARIANTS)))
+    emit("Definition src_is_normal : list N := [%s]." % "; ".join(str(VARIANTS.index(v)) for v in normal))
+    emit("Definition src_comment_refused : list N := [%s]." % "; ".join(str(ord(c)) for c in lit))
+    emit("")
+
 def main():
     repo = os.environ.get("VERIF_REPO", "/repo")
     out = sys.argv[1] if len(sys.argv) > 1 else os.path.join(os.path.dirname(__file__), "..", "coq", "Gen", "Tables.v")
@@ -233,7 +301,12 @@ def main():
                         ("PrefixId", "src/id/prefix.rs", "prefix")]:
         src = read(repo, rel)
         inputs[rel] = src
-        w, checked = id_info(src, ty, rel)
+        try:
+            macro_src = read(repo, "src/id/idmap.rs")
+            inputs["src/id/idmap.rs"] = macro_src
+        except TieBroken:
+            macro_src = None
+        w, checked = id_info(src, ty, rel, macro_src)
         emit(f"Definition id_width_{nm} : N := {w}.")
         emit(f"Definition id_checked_{nm} : bool := {'true' if checked else 'false'}.")
     emit("")
@@ -317,6 +390,19 @@ def main():
         opt_lines = []
     emit("Definition src_tables_read : bool := %s." % ("false" if optional_problem else "true"))
     lines.extend(opt_lines)
+    # --- a second optional group, read independently of the first: the classification of node values and the comment check
+    values_problem = None
+    val_lines = []
+    try:
+        rel = "src/xmlvalue.rs"
+        src = read(repo, rel)
+        inputs[rel] = src
+        value_tables(src, rel, val_lines.append)
+    except TieBroken as e:
+        values_problem = str(e)
+        val_lines = []
+    emit("Definition src_values_read : bool := %s." % ("false" if values_problem else "true"))
+    lines.extend(val_lines)
 
     text = "\n".join(lines) + "\n"
     os.makedirs(os.path.dirname(out), exist_ok=True)
@@ -330,7 +416,8 @@ def main():
     sha = hashlib.sha256("".join(k + "\0" + v for k, v in sorted(inputs.items())).encode()).hexdigest()
     print(json.dumps({"tables_v": os.path.abspath(out), "inputs": sorted(inputs), "inputs_sha256": sha,
                       "changed": old != text, "src_tables_read": optional_problem is None,
-                      "src_tables_problem": optional_problem}))
+                      "src_tables_problem": optional_problem,
+                      "src_values_read": values_problem is None, "src_values_problem": values_problem}))
 
 
 if __name__ == "__main__":
